@@ -24,6 +24,7 @@ TRUSTED = ["recording canvas harness/src/canvas.rs (tuikit's public Canvas trait
 THEMES = ["dark", "bw", "molokai", "light", "16", "c1", "c2"]
 TAB, AE, ZH, GUO, EMO, FWA = 9, 228, 20013, 22269, 128512, 65313
 WIDE = (ZH, GUO, EMO, FWA)
+AMBI = (1072, 945, 9472)   # East-Asian ambiguous width (Cyrillic, Greek, box drawing): width() = 1 but width_cjk() = 2
 SKIPCH = 47  # '/'
 
 
@@ -52,8 +53,10 @@ def _text(rng, kind, ln):
             c = TAB if r < 0.25 else rng.choice([97, 98, 99, 120, 46, 32, 47])
         elif kind == "wide":
             c = rng.choice(WIDE) if r < 0.4 else rng.choice([97, 98, 99, 120, 46, AE, 47])
+        elif kind == "ambi":
+            c = rng.choice(AMBI) if r < 0.7 else rng.choice([97, 98, 46, 32, 47])
         else:
-            c = TAB if r < 0.12 else rng.choice(WIDE) if r < 0.4 else rng.choice([97, 98, 99, 120, 121, 46, 32, AE, 47])
+            c = TAB if r < 0.12 else rng.choice(WIDE) if r < 0.4 else rng.choice(AMBI) if r < 0.5 else rng.choice([97, 98, 99, 120, 121, 46, 32, AE, 47])
         out.append(c)
     return out
 
@@ -140,7 +143,7 @@ class Shadow:
 
 
 def _item(rng, sh, W, tab, invalid=False):
-    kind = rng.choice(["ascii", "ascii", "tabs", "wide", "mix", "mix"])
+    kind = rng.choice(["ascii", "ascii", "tabs", "wide", "mix", "mix", "ambi"])
     r = rng.random()
     cwid = max(W - 2, 1)
     if r < 0.06:
@@ -188,6 +191,12 @@ def _case(rng, mode):
     base_w = rng.choice([3, 4, 5, 6, 7, 8, 9, 10, 12, 14, 16, 20, 24, 30, 40])
     sh = Shadow()
     ops = []
+    if mode == "main" and rng.random() < 0.1:
+        # go to one command string, then BACK to another one (its run number may be lower: run numbers are handed out
+        # per command string), select there and draw: the marks must follow the CURRENT run
+        a, b = rng.sample([0, 1, 2, 3], 2)
+        ops += ["rn:%d" % a, "a:" + _item(rng, sh, base_w, tab, False), "t", "c", "rn:%d" % b]
+        sh.items = []
     nb = rng.choice([1, 1, 2, 3, 5, 8])
     ops.append("a:" + ";".join(_item(rng, sh, base_w, tab, mode == "invalid" and rng.random() < 0.6) for _ in range(nb)))
     H = rng.choice([1, 2, 3, 4, 5, 7, 10])
@@ -217,10 +226,22 @@ def _case(rng, mode):
             nb = rng.choice([1, 1, 2, 3])
             ops.append("a:" + ";".join(_item(rng, sh, base_w, tab, mode == "invalid" and rng.random() < 0.5) for _ in range(nb)))
             n += nb
-        else:
+        elif r < 0.975:
             ops.append("c")
             n = 0
             sh.items = []
+        else:
+            # the command is re-run under another command string (run number): usually the list is replaced, sometimes a
+            # selection action comes while the old list is still shown
+            ops.append("rn:%d" % rng.randint(0, 3))
+            if rng.random() < 0.8:
+                ops.append("c")
+                n = 0
+                sh.items = []
+                nb = rng.choice([1, 2, 3])
+                ops.append("a:" + ";".join(_item(rng, sh, base_w, tab, False) for _ in range(nb)))
+                n += nb
+                ops.append(rng.choice(["t", "t", "sa", "u:1 t"]))
     if not ops[-1].startswith("w:"):
         ops.append("w:%d,%d" % (_pick_w(rng, sh, tab, base_w), H))
     return "%d,%d,%d,%d,%d,%s|%s" % (rev, tab, nh, kr, sk, theme, " ".join(ops))
